@@ -156,9 +156,11 @@ def chain(prog, rep):
     key = None
     for st in cfg.all_stmts():
         if isinstance(st, ast.For):
-            it = b.loop_target(st, st.iter, (), st, {})
-            if it[0] == "key" and it[1] == P("kwargs"):
-                key = it
+            # for key in kwargs / kwargs.keys() / for key, value in kwargs.items()
+            for path in ((), (0,)):
+                it = b.loop_target(st, st.iter, path, st, {})
+                if it[0] == "key" and it[1] == P("kwargs"):
+                    key = it
     for st in cfg.all_stmts():
         if isinstance(st, ast.Assign) and isinstance(st.targets[0], ast.Attribute) and st.targets[0].attr == "func":
             t = b.term(st.value, st)
